@@ -371,14 +371,18 @@ def strwidth_units(tier="quick", seed=0):
 
     saved = sw.ImageFont
     sw.ImageFont = NS(truetype=lambda path, size=None: (seen.append((path, size)), FakeFont())[1])
+    dpi2 = z3.FP("dpi2", F64)
+    bounds += engb.fbounds(dpi2, 36.0, 600.0)
     try:
         res = {u: sw.get_string_width("abc", font=1, font_size=9, unit=u, dpi=SFloat(72.0, dpi)) for u in ("px", "in", "mm")}
+        # one-step history: the same text/font/size/unit measured again at ANOTHER dpi must not remember the first answer
+        res2 = {u: sw.get_string_width("abc", font=1, font_size=9, unit=u, dpi=SFloat(300.0, dpi2)) for u in ("px", "in", "mm")}
     finally:
         sw.ImageFont = saved
     if engb.Ctx.unsupported or engb.Ctx.conds:
         out.update(verdict="inconclusive", reason="untraced operation or branch: %s" % engb.Ctx.unsupported)
         return out
-    if not all(isinstance(v, SFloat) for v in res.values()):
+    if not all(isinstance(v, SFloat) for v in list(res.values()) + list(res2.values())):
         out.update(verdict="inconclusive", reason="results are not traced floats")
         return out
     inch = z3.fpDiv(RNE, px, dpi)
@@ -386,6 +390,10 @@ def strwidth_units(tier="quick", seed=0):
         ("px is the measured length", [z3.Not(z3.fpEQ(res["px"].t, px))]),
         ("in == px/dpi", [z3.Not(_bits(res["in"].t) == _bits(inch))]),
         ("mm == in*25.4", [z3.Not(_bits(res["mm"].t) == _bits(z3.fpMul(RNE, res["in"].t, z3.FPVal(25.4, F64))))]),
+        ("second measurement at another dpi: in == px/dpi2", [z3.Not(_bits(res2["in"].t) == _bits(z3.fpDiv(RNE, px, dpi2)))]),
+        ("second measurement at another dpi: mm == (px/dpi2)*25.4",
+         [z3.Not(_bits(res2["mm"].t) == _bits(z3.fpMul(RNE, z3.fpDiv(RNE, px, dpi2), z3.FPVal(25.4, F64))))]),
+        ("second measurement: px unchanged", [z3.Not(z3.fpEQ(res2["px"].t, px))]),
         ("non-negative", [z3.Or(z3.fpLT(res["px"].t, z3.FPVal(0.0, F64)), z3.fpLT(res["in"].t, z3.FPVal(0.0, F64)),
                                 z3.fpLT(res["mm"].t, z3.FPVal(0.0, F64)))]),
     ]
@@ -395,9 +403,24 @@ def strwidth_units(tier="quick", seed=0):
         out["solver_s"] += dt
         out["samples"].append({"query": name, "result": r})
         if r == "sat":
-            vp, vd = engb.model_float(model, px), engb.model_float(model, dpi)
-            out.update(verdict="counterexample", args={"kw": {"px": vp, "dpi": vd, "clause": name}},
-                       replay={"note": "terms differ structurally; see clause"})
+            vp, vd, vd2 = engb.model_float(model, px), engb.model_float(model, dpi), engb.model_float(model, dpi2)
+            # replay on the plain interpreter with Pillow stubbed by the model's px
+            class PlainFont:
+                def getlength(self, text):
+                    return vp
+            sw.ImageFont = NS(truetype=lambda path, size=None: PlainFont())
+            try:
+                first = {u: sw.get_string_width("abd", font=1, font_size=9, unit=u, dpi=vd) for u in ("px", "in", "mm")}
+                second = {u: sw.get_string_width("abd", font=1, font_size=9, unit=u, dpi=vd2) for u in ("px", "in", "mm")}
+            finally:
+                sw.ImageFont = saved
+            ok = (first["px"] == vp and first["in"] == vp / vd and first["mm"] == (vp / vd) * 25.4 and second["px"] == vp
+                  and second["in"] == vp / vd2 and second["mm"] == (vp / vd2) * 25.4)
+            if ok:
+                out.update(verdict="inconclusive", reason="model for clause %r does not reproduce on the plain interpreter" % name)
+                return out
+            out.update(verdict="counterexample", args={"kw": {"px": vp, "dpi": vd, "dpi2": vd2, "clause": name}},
+                       replay={"first": first, "second": second})
             return out
         if r != "unsat":
             out.update(verdict="inconclusive", reason="%s: solver answered %s" % (name, r))
